@@ -199,6 +199,20 @@ theorem vec_raw_image_witness :
 /-- … which the (unchanged) element-wise decoder reads past the end -/
 theorem vec_raw_image_overread_witness : decodeA (.vec (.sc .i32)) [0x00, 0x40] = none := by decide
 
+/-! ## 5. the driver's domain check -/
+
+/-- the executable check the driver applies to every generated value implies
+`WF`: every op the model answers (rather than `illformed`) lies in the domain of
+the round-trip theorems -/
+theorem driver_domain_check_sound (ty : Ty) (v : Val) (h : wfb ty v = true) : WF ty v :=
+  wfb_sound ty v h
+
+/-- std::map: inserting entries that arrive in key order rebuilds the same map
+(the only place where the decoded container is not the wire order) -/
+theorem map_insert_ordered (kt : Ty) (kvs : List Val) (h : kvs.Pairwise (keyOrdered kt)) :
+    mapFromList kt kvs = kvs :=
+  mapFromList_ordered kt kvs h
+
 /-! ## non-vacuity: the hypotheses are satisfiable by non-trivial values -/
 
 -- a map<string, vector<pair<i8,u16>>> with two entries in key order
